@@ -28,6 +28,8 @@ func main() {
 		devMain(os.Args[2:])
 	case "check":
 		checkMain(os.Args[2:])
+	case "axes":
+		axesMain()
 	default:
 		// vcheck C11 --tier quick
 		checkMain(os.Args[1:])
@@ -124,4 +126,54 @@ func firstLine(s string) string {
 		return s[:100]
 	}
 	return s
+}
+
+// axesMain prints, per check and tier, which values of the configuration axes its jobs cover
+// (a reading aid for spotting scenario gaps; no verification happens here).
+func axesMain() {
+	axes := []string{"index", "shards", "io", "sync", "dfs_hi", "bsync", "premerge", "powerloss", "crash2", "permute", "preempt"}
+	var ids []string
+	for id := range checks {
+		ids = append(ids, id)
+	}
+	sort.Strings(ids)
+	for _, id := range ids {
+		for _, tier := range []string{"quick", "thorough"} {
+			seen := map[string]map[int64]bool{}
+			opsSeen := map[int64]bool{}
+			n := 0
+			for _, js := range checks[id].Jobs(tier) {
+				if js.Witness {
+					continue
+				}
+				n++
+				for _, a := range axes {
+					if seen[a] == nil {
+						seen[a] = map[int64]bool{}
+					}
+					seen[a][js.Params[a]] = true
+				}
+				for _, k := range []string{"ops", "ops2", "tailops"} {
+					opsSeen[js.Params[k]] = true
+				}
+			}
+			var parts []string
+			for _, a := range axes {
+				var vs []int
+				for v := range seen[a] {
+					vs = append(vs, int(v))
+				}
+				sort.Ints(vs)
+				if len(vs) == 1 && vs[0] == 0 {
+					continue
+				}
+				parts = append(parts, fmt.Sprintf("%s=%v", a, vs))
+			}
+			var union int64
+			for m := range opsSeen {
+				union |= m
+			}
+			fmt.Printf("%s %-8s %2d jobs  opsmask=%#x  %s\n", id, tier, n, union, strings.Join(parts, " "))
+		}
+	}
 }
